@@ -92,7 +92,7 @@ claim("C10", "other",
 
 claim("C04", "other",
       "Proved: Snapshot returns a fresh read-only store over the same file and the same version objects, leaving every existing handle and the published map untouched; read-only stores refuse Flush, SetItem, Delete (unchanged state); FlushRevert on a snapshot never truncates or writes; "
-      "releasing a handle (closeCollection, rootDecRef) leaves every version that is still referenced untouched (D4 found here, repaired); lookups, walks and GetTotals leave all versions and their denotations untouched.",
+      "releasing a handle (closeCollection, rootDecRef) leaves every version that is still referenced untouched (D4 found here, repaired); lookups, walks, visits, GetTotals, EvictSomeItems and Flush leave all versions and their denotations untouched; a mutation (SetItem, Delete) of the original publishes a new version and leaves a version that a snapshot still holds with exactly its contents and one reference fewer (per-call isolation); Snapshot pins every version it copies, also when the source is itself a snapshot.",
       A_COMMON + " Not decided: isolation over histories (a snapshot keeps reading the old contents while the original mutates) follows from 'mutations publish a new version and leave older version objects' denotations untouched' per call, not explored over interleavings.")
 
 claim("C05", "other",
